@@ -10,6 +10,7 @@ import Qentem.Proofs.NumToStrIntClass32
 import Qentem.Proofs.NumToStrLayout
 import Qentem.Proofs.NumToStrDefault
 import Qentem.Proofs.NumToStrDefaultRound
+import Qentem.Proofs.NumToStrFixedRound
 /-! C10 — number to text equals the reference formatting for every value and precision.
 
 Model: `Qentem.NumToStr` (transcription of `Digit.hpp`), reference: `Qentem.FmtSpec` (ISO C
@@ -306,6 +307,23 @@ theorem format_eq_spec_short_fractions (pre : List Nat) (bits p f : Nat) (hf : f
 example : fracBits64 0x3FD8000000000000 = 3 ∧ fracBits64 0xC0934A4000000000 = 4 := by decide
 example : realToString f64 [] 0xC0934A4000000000 6 fmtFixed =
     .ok [45, 49, 50, 51, 52, 46, 53, 54, 50, 53, 48, 48] := by decide +kernel   -- -1234.562500
+
+/-- `format_eq_spec_fixed_ge1`: **Fixed (`%.{p}f`) and SemiFixed for every finite double of magnitude ≥ 1**,
+every precision ≤ 40, after any stream contents.  Integers print exactly; values whose binary fraction has at
+most `p` digits print their finite expansion; all others are produced with one extra digit
+(`⌊v·10^(p+1)⌋` + sticky flag, exact by `digits_exact_or_sticky`), rounded half-even in place — rounding digit
+against '5', tie to even on the next digit, carries over nines, carry out of the top digit — and laid out by
+`formatStringNumberFixed` (point insertion, zero restoring, padding): exactly the reference text. -/
+theorem format_eq_spec_fixed_ge1 (pre : List Nat) (bits p f : Nat) (hf : f = 1 ∨ f = 2) (hp : p ≤ 40)
+    (hfin : (bits / 2 ^ 52) % 2 ^ 11 ≠ 2 ^ 11 - 1) (hge1 : 1023 ≤ (bits / 2 ^ 52) % 2 ^ 11) :
+    realToString f64 pre bits p f = .ok (pre ++ FmtSpec.format64 bits p (specFmt f)) :=
+  Qentem.Proofs.NumToStr.fixed_ge1_64 pre bits p f hf hp hfin hge1
+
+/-- tests (kernel evaluation): 11150.001 SemiFixed 2 → 11150; 9999.995 Fixed 2 → 10000.00 (carry out);
+2.5 Fixed 0 → 2 (tie to even); 1234.5678 Fixed 2 -/
+example : realToString f64 [] 0x40C5C7002085B185 2 fmtSemiFixed = .ok [49, 49, 49, 53, 48] := by decide +kernel
+example : realToString f64 [] 0x40C387FF5C28F5C3 2 fmtFixed = .ok [49, 48, 48, 48, 48, 46, 48, 48] := by decide +kernel
+example : realToString f64 [] 0x4004000000000000 0 fmtFixed = .ok [50] := by decide +kernel
 
 /-- `format_eq_spec_partial`: `FormatEqSpec` restricted to the special classes.  The rest — every
 finite non-zero value — is open; see `notes/design-numtostr.md`. -/
